@@ -76,6 +76,7 @@ def backendCap (nIndices : Nat) : String → Option Nat
   | "threaded_spur" => some (2 ^ 32 - 1)
   | "threaded_spur_ref" => some (2 ^ 32 - 1)
   | "mutref" => some nIndices
+  | "builtin_arc" => some nIndices
   | "user" => some (2 ^ 32 - 1)
   | _ => none
 
